@@ -44,7 +44,11 @@ def plan(tier: str):
             ('hip_ra', mc.HIPRA_BASE, mc.HIPRA_INPUTS, mc.HIPRA_OUTPUTS, 48, 3, 'relative'),
             ('geophires', mc.GEO_BASE, [('Utilization Factor', 'uniform', 0.6, 1.25, None)], mc.GEO_OUTPUTS[:2], 16, 2, 'relative'),
             # a host with a coarse wall clock (whole seconds): the workers' streams must not depend on when they started
-            ('geophires', mc.GEO_BASE, mc.GEO_INPUTS[:3], mc.GEO_OUTPUTS[:1], 16, 8, 'coarse'), ('hip_ra_x', mc.HIP_BASE, mc.HIP_INPUTS, mc.HIP_OUTPUTS, 24, 16, 'coarse')]
+            ('geophires', mc.GEO_BASE, mc.GEO_INPUTS[:3], mc.GEO_OUTPUTS[:1], 16, 8, 'coarse'), ('hip_ra_x', mc.HIP_BASE, mc.HIP_INPUTS, mc.HIP_OUTPUTS, 24, 16, 'coarse'),
+            # the result file's directory holds the lock of a writer that died holding it (an earlier study killed in the middle of a row)
+            ('hip_ra_x', mc.HIP_BASE, mc.HIP_INPUTS, mc.HIP_OUTPUTS, 24, 4, 'stale_lock'), ('geophires', mc.GEO_BASE, mc.GEO_INPUTS[:2], mc.GEO_OUTPUTS[:1], 8, 2, 'stale_lock'),
+            # the driver process has run a study on the same base file before, when it held other content
+            ('hip_ra_x', mc.HIP_BASE, mc.HIP_INPUTS, mc.HIP_OUTPUTS, 16, 4, 'prelude')]
     if tier == 'thorough':
         for w in (1, 2, 3, 4, 8, 16):
             runs.append(('geophires', mc.GEO_BASE, mc.GEO_INPUTS, mc.GEO_OUTPUTS, rng.choice([30, 60, 100]), w))
@@ -55,7 +59,8 @@ def plan(tier: str):
 
 def execute(runs, replay: bool):
     with cf.ThreadPoolExecutor(max_workers=3) as ex:
-        raw = list(ex.map(lambda a: mc.run_mc(*a[:6], relative=(len(a) > 6 and a[6] == 'relative'), coarse_clock=(len(a) > 6 and a[6] == 'coarse')), runs))
+        raw = list(ex.map(lambda a: mc.run_mc(*a[:6], relative=(len(a) > 6 and a[6] == 'relative'), coarse_clock=(len(a) > 6 and a[6] == 'coarse'),
+                                              prelude=(len(a) > 6 and a[6] == 'prelude'), stale_lock=(len(a) > 6 and a[6] == 'stale_lock')), runs))
     return [mc.build_trace(k + 1, r, replay) for k, r in enumerate(raw)], raw
 
 
@@ -81,7 +86,7 @@ def judge(res: Result, traces, raw, prefixes, pid: str):
             res.violation({'clause': c, 'run': ident}, f'{c} fails on MC run {ident}: {json.dumps(wit)[:400]}',
                           {'kind': t['kind'], 'workers': t['workers'], 'iterations': t['iterations'], 'inputs': t['inputs'],
                            'outputs': t['outputs'], 'base': r['base'], 'verdict': {k: v for k, v in vd.items() if k != 'w'}, 'witness': wit,
-                           'file_rows': t['file_rows'][:10]})
+                           'file_rows': t['file_rows'][:10], 'history': r.get('history', '') or ('relative' if r.get('relative') else '')})
     empty = [t['tid'] for t in traces if not t['file_rows'] and not [c for c in verdicts[t['tid']]['f'] if not c.startswith('fit_')]]
     if empty:  # no rows and nothing explains it: the driver's inputs are wrong, not the code under test
         raise MachineryFailure(f'MC runs {empty} produced no rows at all (driver inputs wrong?): ' + raw[empty[0] - 1]['stderr_tail'][-400:])
@@ -124,7 +129,7 @@ def replay(path: str) -> int:
     res = Result('C13', 'quick')
     inputs = [(i['name'], i['dist'], float(__import__('fractions').Fraction(i['a'])), float(__import__('fractions').Fraction(i['b'])),
                float(__import__('fractions').Fraction(i['c'])) if i['dist'] == 'triangular' else None) for i in data['inputs']]
-    traces, raw = execute([(data['kind'], data['base'], inputs, data['outputs'], data['iterations'], data['workers'])], replay=False)
+    traces, raw = execute([(data['kind'], data['base'], inputs, data['outputs'], data['iterations'], data['workers']) + ((data['history'],) if data.get('history') else ())], replay=False)
     judge(res, traces, raw, CLAUSES, 'C13')
     res.case('again')
     return res.finish()
